@@ -19,7 +19,7 @@ const (
 func init() {
 	register(&Property{
 		ID:   "C02",
-		Mods: []string{modEngine},
+		Mods: []string{modEngine, modAgg},
 		Explanation: "Decides structural necessary conditions of the concurrency quota, not the in-flight count over interleavings: " +
 			"(R1) add-if-below-max: the member is appended only on the edge len(set) < maxAllowed, inside the memoryState mutex together with the set initialisation; (R2) only Inc adds and only Dec/GC remove members; " +
 			"(R3) the quota's system flow puts QuotaProcessorInc at request start and QuotaProcessorDec at response end for this quota id, and the Dec processor calls quota.Dec; " +
@@ -34,6 +34,10 @@ func init() {
 }
 
 func runC02(w *World, r *Report) {
+	hrDiscoveryRunOrder(w, r, "R5")
+	// the system flows of a quota are selected like any flow: the qualifier tables of C03.R4
+	r.Borrow(w, runC03, map[string]string{"R4": "R6", "R9": "R6"})
+	hrIncUsesTransactionID(w, r, "R6")
 	la := NewLockAn(w)
 	atomicOnly := func(id string) bool {
 		for _, m := range []string{"AtomicSAddWithMaxValuesAllowed", "SCard", "SMembers", "SRem"} {
